@@ -4,10 +4,10 @@ import (
 	"crypto/sha256"
 	"encoding/json"
 	"fmt"
-	"os"
-	"strings"
 	"io"
+	"os"
 	"runtime/debug"
+	"strings"
 
 	"github.com/mosaicnetworks/babble/src/peers"
 	"github.com/sirupsen/logrus"
